@@ -39,7 +39,9 @@ REQUIRED = dict(monitors=['contract:uniform.sample', 'contract:gaussian.sample',
                           'text-read-again-equals-direct', 'clone:same-class-and-space', 'clone:same-map'],
                 classes=['Uniform', 'LogUniform', 'Gaussian', 'LogGaussian', 'bounds-reversed', 'u=0', 'u=1',
                          'set_bounds-on-live-object', 'text:first-object-retuned', 'modify_bounds:NPoint',
-                         'modify_bounds:Isothermal', 'clone:deepcopy', 'clone:pickle', 'clone:pickle2', 'clone:copy'])
+                         'modify_bounds:Isothermal', 'clone:deepcopy', 'clone:pickle', 'clone:pickle2', 'clone:copy',
+                         'layout:0-d', 'layout:(n,1)', 'layout:(1,n)', 'layout:2-d-C', 'layout:2-d-F', 'layout:transposed-view',
+                         'layout:strided', 'layout:read-only', 'layout:list'])
 
 
 def classify(f):
@@ -118,6 +120,7 @@ def wl_uniform(ctx, rng):
         ctx.check('prior-mode', p.priorMode is PriorMode.LINEAR)
         # vectorised call gives the same as scalar calls
         ctx.close('vector-equals-scalar', p.sample(u), x, 0.0)
+        judge_layouts(ctx, rng, p, u, x)
         ctx.sig('Uniform', a, b)
         ctx.sample({'class': 'Uniform', 'bounds': (a, b), 'u': u[:5], 'x': x[:5]})
     else:
@@ -134,6 +137,7 @@ def wl_uniform(ctx, rng):
         scale = max(abs(la), abs(lb))
         ctx.close('uniform-inverse-cdf', x, want, 1e-12, atol=1e-12 * scale, bounds=(la, lb), log=True)
         check_monotone(ctx, 'LogUniform', u, x)
+        judge_layouts(ctx, rng, p, u, x)
         ctx.check('prior-mode', p.priorMode is PriorMode.LOG)
         xs = x[np.abs(x) < 300]
         ctx.close('log-prior-10**x', [p.prior(v) for v in xs], 10.0 ** xs, 1e-13, bounds=(la, lb))
@@ -164,6 +168,54 @@ def wl_uniform(ctx, rng):
     if rng.random() < 0.5:
         judge_clone(ctx, rng, p, u)
 
+
+
+
+def judge_layouts(ctx, rng, p, u, x):
+    """``sample`` handed the unit-cube coordinates in another container / memory layout gives, element by element, what
+    the scalar calls give (x = [p.sample(ui) for ui in u])."""
+    k = len(u)
+    kind = ['0-d', 'list', '(n,1)', '(1,n)', '2-d-C', '2-d-F', 'transposed-view', 'strided', 'read-only', 'float32-exact'][rng.integers(0, 10)]
+    rows = 2 + int(rng.integers(0, 3))
+    idx = rng.integers(0, k, (rows, 3))
+    if kind == '0-d':
+        j = int(rng.integers(0, k))
+        arg, want = np.array(u[j]), np.array(x[j])
+    elif kind == 'list':
+        arg, want = [float(v) for v in u], x
+    elif kind == '(n,1)':
+        arg, want = u.reshape(-1, 1).copy(), x.reshape(-1, 1)
+    elif kind == '(1,n)':
+        arg, want = u.reshape(1, -1).copy(), x.reshape(1, -1)
+    elif kind == '2-d-C':
+        arg, want = np.ascontiguousarray(u[idx]), x[idx]
+    elif kind == '2-d-F':
+        arg, want = np.asfortranarray(u[idx]), x[idx]
+    elif kind == 'transposed-view':
+        arg, want = np.ascontiguousarray(u[idx].T).T, x[idx]
+    elif kind == 'strided':
+        arg, want = np.repeat(u, 2)[::2], x
+    elif kind == 'read-only':
+        arg, want = u.copy(), x
+        arg.setflags(write=False)
+    else:
+        # values exactly representable in single precision, typed float32
+        sel = np.array([i for i in range(k) if float(np.float32(u[i])) == float(u[i])], dtype=int)
+        if len(sel) == 0:
+            return
+        arg, want = u[sel].astype(np.float32), x[sel]
+    before = np.array(arg, dtype=float, copy=True)
+    got = p.sample(arg)
+    ctx.observe('layout:' + kind)
+    ok = np.shape(got) == np.shape(want) and bool(np.array_equal(np.asarray(got, dtype=float), np.asarray(want, dtype=float),
+                                                                 equal_nan=True))
+    worst = None
+    if not ok and np.shape(got) == np.shape(want):
+        d = np.abs(np.asarray(got, dtype=float) - np.asarray(want, dtype=float))
+        worst = [float(np.asarray(got, dtype=float).flat[int(np.nanargmax(d))]), float(np.asarray(want, dtype=float).flat[int(np.nanargmax(d))])]
+    ctx.check('vector-equals-scalar', ok, layout=kind, cls=type(p).__name__, shape_got=list(np.shape(got)),
+              shape_want=list(np.shape(want)), worst_got_want=worst)
+    ctx.check('sample-leaves-its-argument-alone', bool(np.array_equal(np.asarray(arg, dtype=float), before)), layout=kind)
 
 
 def judge_clone(ctx, rng, p, u):
@@ -229,6 +281,7 @@ def wl_gaussian(ctx, rng):
     ctx.close('gaussian-roundtrip-cdf', norm_cdf(z), ui, tolr, atol=4 * cond * np.max(dens) + 1e-300,
               mean=mean, std=std)
     ctx.close('vector-equals-scalar', p.sample(u), x, 0.0)
+    judge_layouts(ctx, rng, p, u, x)
     b = p.boundaries()
     ctx.close('boundaries', b, (mean + std * ndtri(0.1), mean + std * ndtri(0.9)), 1e-12, atol=1e-12 * abs(mean))
     if log:
